@@ -102,6 +102,10 @@ def run_check(prop, tier, seed, replay=None):
                     mod.replay(ctx, json.load(open(replay)))
                 else:
                     mod.run(ctx)
+                    # option parsing is a function of the arguments (no state of an earlier parse), for the option
+                    # fields this property depends on
+                    from harness import optglue
+                    optglue.stateless(ctx, prop)
             except common.InternalError:
                 raise
             except (Exception, SystemExit) as e:  # noqa: BLE001
